@@ -262,7 +262,9 @@ def layout(sc: dict):
         # what a crashed earlier writer leaves: temp files next to the target, one of them under the very name the next
         # writer's (deterministic) name sequence starts with
         for nm in ("tmpa0n000001.tmp", "tmps0000001.tmp", "tmpzzzzzzzz.tmp", ".t.oct.md.tmp"):
-            spec.append(("f", "sb/" + sub + nm, b"half written by a writer that died\n", 0o600))
+            # LONGER than anything the next writer produces: a staging file that is reused without truncation keeps a tail
+            spec.append(("f", "sb/" + sub + nm, b"half written by a writer that died\n" + b"".join(
+                b"OLD%04d::\"orphaned tail of a much longer document\"\n" % i for i in range(400)), 0o600))
     if sc.get("siblings"):
         spec.append(("f", "sb/sibling.oct.md", b"===SIB===\nS::1\n===END===\n", 0o644))
         spec.append(("f", "sb/notes.txt", b"do not touch\n", 0o600))
